@@ -363,6 +363,25 @@ fn count_threads() -> u64 {
 
 /// `vh graph`: the execution graph of a program as every host of a configuration derives it.
 pub fn graph_case(case: &Value, slot: u32, serial: u32) -> Value {
+    if let Some(pairs) = case.get("algebra").and_then(|a| a.as_array()) {
+        // conformance of spec/comp/Replication.tla: the real `Replication::intersect` on every pair
+        fn rep(v: &Value) -> renoir::Replication {
+            match v["k"].as_str().unwrap() {
+                "Unlimited" => renoir::Replication::Unlimited,
+                "Host" => renoir::Replication::Host,
+                "One" => renoir::Replication::One,
+                _ => renoir::Replication::Limited(v["n"].as_u64().unwrap()),
+            }
+        }
+        let out: Vec<Value> = pairs
+            .iter()
+            .map(|p| {
+                let r = format!("{:?}", rep(&p["a"]).intersect(rep(&p["b"])));
+                json!({"a": p["a"], "b": p["b"], "r": r})
+            })
+            .collect();
+        return json!({"id": case["id"], "cfg": case["cfg"], "algebra": out, "dumps": [], "panics": []});
+    }
     let cfgs = configs(&case["cfg"], slot, serial);
     let mut dumps = vec![];
     for (h, cfg) in cfgs.into_iter().enumerate() {
